@@ -5,8 +5,10 @@
 //	        the key order of the resulting hash with the value stored under each key;
 //	symtab  the REAL zygo.NewZlispWithFuncs on a generated set of builtin names; observable: the
 //	        symbol numbers of the builtins, of null/nil and of reserved words;
-//	named   the REAL by-name call of a declared function (check.go: submittedByName, only indexed);
-//	        observable: the arguments in declared order.
+//	Every case is evaluated several times (ksort 5, symtab 3, named 4): the repeats must agree.
+//	named   the REAL by-name call of a declared function with typed parameters (check.go:
+//	        FunctionCallNameTypeCheck; submittedByName is only indexed), 0..n arguments ill-typed;
+//	        observable: OK + the arguments in declared order, or MISMATCH + the parameter the error names.
 //
 // Cases file C20.corr.cases: ID<TAB>INPUT<TAB>IMPL.  Keys are hex-encoded byte strings.
 package main
@@ -16,6 +18,7 @@ import (
 	"fmt"
 	"os"
 	"path/filepath"
+	"regexp"
 	"sort"
 	"strings"
 
@@ -184,7 +187,9 @@ func implKsort(env *zygo.Zlisp, keys []string) (obs string) {
 
 // ---- symtab: zygo.NewZlispWithFuncs
 
-func dummyFn(env *zygo.Zlisp, name string, args []zygo.Sexp) (zygo.Sexp, error) { return zygo.SexpNull, nil }
+func dummyFn(env *zygo.Zlisp, name string, args []zygo.Sexp) (zygo.Sexp, error) {
+	return zygo.SexpNull, nil
+}
 
 func implSymtab(funcs, queries []string) (obs string) {
 	defer func() {
@@ -207,33 +212,50 @@ func implSymtab(funcs, queries []string) (obs string) {
 
 // ---- named: by-name call
 
-func implNamed(env *zygo.Zlisp, idx int, declared, submitted []string, vals []int) string {
+// declared[i] = name, dtypes[i] = "i" (int64) or "s" (string); vals[i] = "i<digit>" or "s<letter>"
+func implNamed(env *zygo.Zlisp, idx int, declared, dtypes, submitted, vals []string) string {
 	fname := fmt.Sprintf("c20named%d", idx)
 	var sb strings.Builder
 	fmt.Fprintf(&sb, "(func %s [", fname)
+	for i, d := range declared {
+		t := "int64"
+		if dtypes[i] == "s" {
+			t = "string"
+		}
+		fmt.Fprintf(&sb, "%s:%s ", d, t)
+	}
+	sb.WriteString("] [r:string] (concat \"\"")
 	for _, d := range declared {
-		fmt.Fprintf(&sb, "%s:int64 ", d)
+		fmt.Fprintf(&sb, " (str %s) \",\"", d)
 	}
-	expr := declared[0]
-	for _, d := range declared[1:] {
-		expr = "(+ (* 10 " + expr + ") " + d + ")"
-	}
-	sb.WriteString("] [r:int64] " + expr + ")")
+	sb.WriteString("))")
 	r := lib.Eval(env, sb.String(), 200000)
 	if r.Class != lib.OutValue {
 		return "DECLERR"
 	}
 	call := "(" + fname
 	for i, s := range submitted {
-		call += fmt.Sprintf(" %s:%d", s, vals[i])
+		if vals[i][0] == 's' {
+			call += fmt.Sprintf(" %s:%q", s, vals[i][1:])
+		} else {
+			call += fmt.Sprintf(" %s:%s", s, vals[i][1:])
+		}
 	}
 	call += ")"
 	r = lib.Eval(env, call, 200000)
+	if r.Class == lib.OutError {
+		if m := mismatchRe.FindStringSubmatch(r.Err.Error()); m != nil {
+			return "MISMATCH " + hx(m[1])
+		}
+		return "ERR"
+	}
 	if r.Class != lib.OutValue || r.Val == nil {
 		return "ERR"
 	}
-	return strings.Trim(r.Val.SexpString(nil), "\"")
+	return "OK " + strings.NewReplacer("\"", "", "\\", "").Replace(r.Val.SexpString(nil))
 }
+
+var mismatchRe = regexp.MustCompile(`type mismatch for parameter '([^']*)'`)
 
 type corrCase struct {
 	input string
@@ -270,8 +292,7 @@ func corrOne(env *zygo.Zlisp, idx int, input string) string {
 		}
 		return implSymtab(funcs, queries)
 	case "named":
-		var declared, submitted []string
-		var vals []int
+		var declared, dtypes, submitted, vals []string
 		mode := ""
 		for _, t := range f[1:] {
 			if t == "D" || t == "S" {
@@ -279,18 +300,41 @@ func corrOne(env *zygo.Zlisp, idx int, input string) string {
 				continue
 			}
 			if mode == "D" {
-				declared = append(declared, unhx(t))
+				nt := strings.SplitN(t, ":", 2)
+				declared = append(declared, unhx(nt[0]))
+				if len(nt) == 2 {
+					dtypes = append(dtypes, nt[1])
+				} else {
+					dtypes = append(dtypes, "i")
+				}
 			} else {
 				kv := strings.SplitN(t, "=", 2)
 				submitted = append(submitted, unhx(kv[0]))
-				v := 0
-				fmt.Sscan(kv[1], &v)
-				vals = append(vals, v)
+				vals = append(vals, kv[1])
 			}
 		}
-		return implNamed(env, idx, declared, submitted, vals)
+		return implNamed(env, idx, declared, dtypes, submitted, vals)
 	}
 	return "BADCASE"
+}
+
+// corrRepeat evaluates the case several times (every Go map walk starts at a new random position):
+// the property itself is that all repeats agree.  "NONDET a | b" = two repeats differed.
+func corrRepeat(env *zygo.Zlisp, idx int, input string) string {
+	n := 4
+	switch {
+	case strings.HasPrefix(input, "ksort"):
+		n = 5
+	case strings.HasPrefix(input, "symtab"):
+		n = 3
+	}
+	first := corrOne(env, idx*8, input)
+	for i := 1; i < n; i++ {
+		if o := corrOne(env, idx*8+i, input); o != first {
+			return "NONDET " + first + " | " + o
+		}
+	}
+	return first
 }
 
 func notSpecialKey(k string) bool { return k != "zKeyOrder" && k != "Atype" }
@@ -298,18 +342,18 @@ func notSpecialKey(k string) bool { return k != "zKeyOrder" && k != "Atype" }
 // writeCorr generates the streams, runs the real code, writes <dir>/C20.corr.cases and returns
 // the distribution.  replayInput != "" : only that case.
 func writeCorr(dir string, seed uint64, tier string, replayInput string) map[string]interface{} {
-	rng := lib.NewRng(seed ^ 0xC20C0FF)
+	rng := lib.NewRng(seed ^ 0xC20C0FF).Fork() // Fork: consecutive seeds give SHIFTED splitmix streams, the fork decorrelates them
 	env := newEnv()
 	var cases []corrCase
 	add := func(input string, tags ...string) {
-		cases = append(cases, corrCase{input: input, impl: corrOne(env, len(cases), input), tags: tags})
+		cases = append(cases, corrCase{input: input, impl: corrRepeat(env, len(cases), input), tags: tags})
 	}
 	if replayInput != "" {
 		add(replayInput, "replay")
 	} else {
-		nk, ns, nn := 400, 120, 120
+		nk, ns, nn := 400, 120, 200
 		if tier == "thorough" {
-			nk, ns, nn = 4000, 600, 600
+			nk, ns, nn = 4000, 600, 2000
 		}
 		// ksort: exhaustive small sets over a tie-prone alphabet, then random sets
 		small := []string{"id", "ID", "Id", "i", "idx", "é", "É", "a"}
@@ -435,15 +479,33 @@ func writeCorr(dir string, seed uint64, tier string, replayInput string) map[str
 				j := rng.Intn(i + 1)
 				sub[i], sub[j] = sub[j], sub[i]
 			}
+			// declared types; the submitted values: 0, 1, 2 or more of them of the other type
+			dt := make(map[string]string)
 			parts := []string{"named", "D"}
 			for _, d := range decl {
-				parts = append(parts, hx(d))
+				dt[d] = []string{"i", "s"}[rng.Intn(2)]
+				parts = append(parts, hx(d)+":"+dt[d])
 			}
 			parts = append(parts, "S")
+			wrong := 0
+			pWrong := []int{0, 0, 3, 6, 9}[rng.Intn(5)] // chance (in tenths) that an argument has the other type
 			for _, s := range sub {
-				parts = append(parts, fmt.Sprintf("%s=%d", hx(s), 1+rng.Intn(9)))
+				t := dt[s]
+				if rng.Intn(10) < pWrong {
+					t = map[string]string{"i": "s", "s": "i"}[t]
+					wrong++
+				}
+				if t == "i" {
+					parts = append(parts, fmt.Sprintf("%s=i%d", hx(s), 1+rng.Intn(9)))
+				} else {
+					parts = append(parts, fmt.Sprintf("%s=s%c", hx(s), 'A'+rune(rng.Intn(26))))
+				}
 			}
-			add(strings.Join(parts, " "), append(keyClasses(decl), "stream:named", fmt.Sprintf("nparams:%d", n))...)
+			wtag := "illtyped-args:2+"
+			if wrong < 2 {
+				wtag = fmt.Sprintf("illtyped-args:%d", wrong)
+			}
+			add(strings.Join(parts, " "), append(keyClasses(decl), "stream:named", fmt.Sprintf("nparams:%d", n), wtag)...)
 		}
 	}
 	f, err := os.Create(filepath.Join(dir, "C20.corr.cases"))
